@@ -164,7 +164,10 @@ class ZConfigParser:
 
     def handle_include(self, section, rest):
         rest = self.replace(rest.strip())
-        newurl = ZConfig.url.urljoin(self.url, rest)
+        try:
+            newurl = ZConfig.url.urljoin(self.url, rest)
+        except ValueError as e:
+            self.error(f"invalid %include reference {rest!r}: {e}")
         self.context.includeConfiguration(section, newurl, self.defines)
 
     def handle_define(self, section, rest):
